@@ -838,7 +838,9 @@ class BaseRequest:
         if "webob._parsed_query_vars" in env:
             vars, qs = env["webob._parsed_query_vars"]
 
-            if qs == source:
+            # a copied environ carries the original's GetDict, which writes
+            # back to the original environ: do not reuse it
+            if qs == source and vars.env is env:
                 return vars
 
         data = []
